@@ -30,6 +30,12 @@ pub struct Scn {
     pub delay_max_us: u64,
     #[serde(default)]
     pub trace_hooks: bool,
+    /// all threads wait for each other before every read (needs op lists of one length): simultaneous first accesses
+    #[serde(default)]
+    pub barrier: bool,
+    /// the pack is opened again (nothing cached, no decoder started) and the reads repeated this many times
+    #[serde(default)]
+    pub rounds: u32,
     pub threads: Vec<Vec<ReadOp>>,
 }
 
@@ -76,7 +82,9 @@ fn do_read(pack: &jbk::reader::ContentPack, op: &ReadOp) -> Result<bool, String>
             .map_err(|e| format!("get_slice: {e}"))?
             .to_vec(),
         "stream" => {
-            let mut s = region.cut(jbk::Offset::from(op.off), jbk::Size::from(op.len)).stream();
+            let mut s = region
+                .cut(jbk::Offset::from(op.off), jbk::Size::from(op.len))
+                .stream();
             let mut v = Vec::with_capacity(l);
             s.read_to_end(&mut v).map_err(|e| format!("read: {e}"))?;
             v
@@ -84,14 +92,18 @@ fn do_read(pack: &jbk::reader::ContentPack, op: &ReadOp) -> Result<bool, String>
         "exact" => {
             let mut s = region.stream();
             let mut skip = vec![0u8; o];
-            s.read_exact(&mut skip).map_err(|e| format!("read_exact: {e}"))?;
+            s.read_exact(&mut skip)
+                .map_err(|e| format!("read_exact: {e}"))?;
             let mut v = vec![0u8; l];
-            s.read_exact(&mut v).map_err(|e| format!("read_exact: {e}"))?;
+            s.read_exact(&mut v)
+                .map_err(|e| format!("read_exact: {e}"))?;
             v
         }
         _ => {
             // odd-sized reads through the stream
-            let mut s = region.cut(jbk::Offset::from(op.off), jbk::Size::from(op.len)).stream();
+            let mut s = region
+                .cut(jbk::Offset::from(op.off), jbk::Size::from(op.len))
+                .stream();
             let mut v = Vec::with_capacity(l);
             let mut buf = [0u8; 1500];
             loop {
@@ -114,17 +126,28 @@ pub fn run(s: &Scn) {
     LOG.store(s.trace_hooks, Ordering::Relaxed);
     jbk::verif::set_tracer(Some(tracer));
     let r = catch(|| -> Result<(), String> {
-        let reader: jbk::Reader = jbk::FileSource::open(&s.file).map_err(|e| e.to_string())?.into();
-        let pack = Arc::new(jbk::reader::ContentPack::new(reader).map_err(|e| format!("open: {e}"))?);
-        let mut handles = vec![];
-        for (t, ops) in s.threads.iter().enumerate() {
-            let pack = Arc::clone(&pack);
-            let ops = ops.clone();
-            handles.push(
+        for _round in 0..s.rounds.max(1) {
+            let reader: jbk::Reader = jbk::FileSource::open(&s.file)
+                .map_err(|e| e.to_string())?
+                .into();
+            let pack =
+                Arc::new(jbk::reader::ContentPack::new(reader).map_err(|e| format!("open: {e}"))?);
+            let mut handles = vec![];
+            let nops = s.threads.iter().map(|o| o.len()).min().unwrap_or(0);
+            let use_barrier = s.barrier && s.threads.iter().all(|o| o.len() == nops);
+            let barrier = Arc::new(std::sync::Barrier::new(s.threads.len()));
+            for (t, ops) in s.threads.iter().enumerate() {
+                let pack = Arc::clone(&pack);
+                let barrier = Arc::clone(&barrier);
+                let ops = ops.clone();
+                handles.push(
                 std::thread::Builder::new()
                     .name(format!("reader{t}"))
                     .spawn(move || {
                         for (k, op) in ops.iter().enumerate() {
+                            if use_barrier {
+                                barrier.wait();
+                            }
                             let r = catch(|| do_read(&pack, op));
                             let (res, err) = match r {
                                 Ok(Ok(true)) => ("equal", String::new()),
@@ -137,9 +160,10 @@ pub fn run(s: &Scn) {
                     })
                     .unwrap(),
             );
-        }
-        for h in handles {
-            h.join().map_err(|_| "reader thread panicked".to_string())?;
+            }
+            for h in handles {
+                h.join().map_err(|_| "reader thread panicked".to_string())?;
+            }
         }
         Ok(())
     });
